@@ -7,7 +7,7 @@ import shutil
 import subprocess
 import time
 
-from common import GARDEN, limit_memory, scratch_dir
+from common import GARDEN, limited, scratch_dir
 
 
 class Lsp:
@@ -15,8 +15,8 @@ class Lsp:
         self.dir = scratch_dir("lsp")
         env = dict(os.environ)
         env["GARDEN_LOG"] = "error"
-        self.proc = subprocess.Popen([GARDEN, "lsp"], cwd=self.dir, env=env, stdin=subprocess.PIPE,
-                                     stdout=subprocess.PIPE, stderr=subprocess.PIPE, preexec_fn=limit_memory)
+        self.proc = subprocess.Popen(limited([GARDEN, "lsp"]), cwd=self.dir, env=env, stdin=subprocess.PIPE,
+                                     stdout=subprocess.PIPE, stderr=subprocess.PIPE)
         self.buf = b""
         self.log = []          # ("send", msg) / ("recv", msg) in client order
 
